@@ -81,7 +81,7 @@ IDENTITY_HEAVY = dict(
     args_pool='rich', w_dup=18, w_bf=24, w_sb=30, w_q=14, p_catch=0.9,
     p_spelling=0.5, p_q_spelling=0.3, p_chdir_step=0.25, n_steps=(2, 5),
     p_mutate_step=0.1, n_groups=(1, 1), n_paths=(3, 5), w_raise=2,
-    p_ret_val=0.3)
+    p_ret_val=0.3, w_mut=8)
 DUP_HEAVY = dict(
     w_dup=22, w_bf=26, w_sb=24, w_q=18, p_catch=0.85, n_steps=(3, 6),
     p_mutate_step=0.15, n_groups=(1, 2), n_paths=(3, 6), w_raise=8,
